@@ -102,10 +102,10 @@ OnWrite(P, Z, ev, NS) ==
             ELSE UNION {IF v \in NS[f.wins[j].id].d THEN {} ELSE {<<"D", f.wins[j].id, v, leaf, "-">>} : j \in 1..nw}
       upd(w) == IF ev.e = "WL" THEN [w EXCEPT !.wr = @ \cup {l}, !.wv = @ \cup {v}]
                 ELSE [w EXCEPT !.wr = @ \cup {l}, !.wv = @ \cup {v}, !.curW = @ \cup {l}, !.cv = @ \cup {v}, !.segW = @ \cup {l},
-                               !.pts = [k \in 1..Len(w.pts) |-> IF l \in w.pts[k].cand
+                               !.pts = TLCEval([k \in 1..Len(w.pts) |-> IF l \in w.pts[k].cand
                                                                 THEN [w.pts[k] EXCEPT !.cand = @ \ {l}, !.kv = @ \cup {v}]
-                                                                ELSE [w.pts[k] EXCEPT !.kv = @ \cup {v}]]]
-      wins2 == [j \in 1..nw |-> upd(f.wins[j])]
+                                                                ELSE [w.pts[k] EXCEPT !.kv = @ \cup {v}]])]
+      wins2 == TLCEval([j \in 1..nw |-> upd(f.wins[j])])
   IN [Z EXCEPT !.bad = @ \cup b1, !.fr[fi].wr = @ \cup {l}, !.fr[fi].wins = wins2, !.n.writes = @ + 1]
 
 OnEnter(P, Z, ev) ==
